@@ -389,6 +389,34 @@ def check_op2_file(data, truth, blocks, res, tag):
                     res.transitions += 1
                     if pos != nxt:
                         msgs.append("%s: after %s of matrix %s the reader is at %d, next block starts at %d" % (tag, mode, t["name"], pos, nxt))
+        # history invariant: results returned earlier stay valid after any later read on the same reader object
+        kept = []
+        en = o._endian.replace("=", "<")
+        for form, dt, bp in ((None, "i%d" % o._ibytes, o._ibytes), ("uint", "u%d" % o._ibytes, o._ibytes), ("single", "f4", 4), ("double", "f8", 8)):
+            for useN in (True, False):
+                for i, (t, blk) in enumerate(zip(truth, blocks)):
+                    if blk["kind"] != "table":
+                        continue
+                    o.set_position(t["start"])
+                    o.rdop2nt()
+                    for parts in blk["records"]:
+                        raw = b"".join(parts)
+                        if len(raw) % bp:
+                            o.skipop2record()
+                            continue
+                        rec = o.rdop2record(form, len(raw) // bp if useN else 0)
+                        res.transitions += 1
+                        kept.append((rec, np.frombuffer(raw, en + dt), "rdop2record(%r, N=%s) of table %s" % (form, "len" if useN else 0, t["name"])))
+        for i, (t, blk) in enumerate(zip(truth, blocks)):
+            if blk["kind"] == "matrix":
+                o.set_position(t["start"])
+                nm, tr, typ = o.rdop2nt()
+                kept.append((o.rdop2matrix(tr), op2_enc.dense_of(blk), "rdop2matrix of %s" % t["name"]))
+        for got_, want_, what in kept:
+            ok = got_ is not None and (same(got_, want_) if np.ndim(want_) == 2 else (np.shape(got_) == want_.shape and np.asarray(got_).tobytes() == want_.tobytes()))
+            if not ok:
+                msgs.append("%s: %s is no longer the encoded content after later reads on the same OP2 object (result aliased or wrong)" % (tag, what))
+                break
         res.states += len(truth)
     except Exception as e:  # noqa
         import traceback
